@@ -515,6 +515,83 @@ Definition judge_with (p : proj) (mon : runcase -> list callrec -> bool)
                       v_mon_impl := mon c impl; v_mon_model := true |}
   end.
 
+(* ---- C04: guards are evaluated in the context of the enclosing task instance ---- *)
+(* (theorems: RefC04.v) *)
+(* the open task instances: pushed at a task-started notification, popped at the matching
+   task-finished notification (a finished notification for an instance that is not open is
+   rejected); every oracle query must name an open instance *)
+Definition c04_notif (open : list nat) (n : notif) : option (list nat) :=
+  match n_kind n with
+  | TS => Some (n_id n :: open)
+  | TF => remove_first (Nat.eqb (n_id n)) open
+  | _ => Some open
+  end.
+
+Definition c04_entry (open : list nat) (e : entry) : option (list nat) :=
+  match e with
+  | ENotif 0 n _ => c04_notif open n
+  | EQuery _ ctx => if mem ctx open then Some open else None
+  | _ => Some open
+  end.
+
+Fixpoint c04_log (open : list nat) (log : list entry) : option (list nat) :=
+  match log with
+  | [] => Some open
+  | e :: t => match c04_entry open e with Some o => c04_log o t | None => None end
+  end.
+
+Fixpoint c04_run (open : list nat) (tr : list callrec) : bool :=
+  match tr with
+  | [] => true
+  | r :: t => match c04_log open (cr_log r) with Some o => c04_run o t | None => false end
+  end.
+
+Definition holds_C04q (tr : list callrec) : bool := c04_run [] tr.
+
+
+(* After a query in context c the next thing function 0 or the oracle sees in the same call
+   is: another query in context c (the next variable of the guard, or the next guard of the
+   same block), a task-started / service-started notification whose enclosing instance is c
+   (the first statement of the selected branch or loop body, or the statement after the
+   Condition / loop), or the task-finished notification of c itself (its block is complete).
+   Never a notification of a statement of another instance: the guard belongs to the block
+   that is executing inside c.  A query renamed to the parent instance, which is open as
+   well, is rejected by this monitor. *)
+Definition n_ok (c : nat) (n : notif) : bool :=
+  match n_kind n with
+  | TS | SS => option_eqb Nat.eqb (n_ctx n) (Some c)
+  | TF => Nat.eqb (n_id n) c
+  | SF => false
+  end.
+
+Definition nstep_notif (p : option nat) (n : notif) : option (option nat) :=
+  match p with
+  | None => Some None
+  | Some c => if n_ok c n then Some None else None
+  end.
+
+Definition nstep_entry (p : option nat) (e : entry) : option (option nat) :=
+  match e with
+  | ENotif 0 n _ => nstep_notif p n
+  | EQuery _ c =>
+    match p with
+    | None => Some (Some c)
+    | Some c' => if Nat.eqb c' c then Some (Some c) else None
+    end
+  | _ => Some p
+  end.
+
+Fixpoint nwalk (p : option nat) (log : list entry) : option (option nat) :=
+  match log with
+  | [] => Some p
+  | e :: t => match nstep_entry p e with Some p' => nwalk p' t | None => None end
+  end.
+
+Definition holds_C04n (tr : list callrec) : bool :=
+  forallb (fun r => match nwalk None (cr_log r) with Some _ => true | None => false end) tr.
+
+
+
 Definition mon_true (_ : runcase) (_ : list callrec) : bool := true.
 Definition mon_C01 (_ : runcase) (tr : list callrec) : bool := holds_C01 tr.
 Definition mon_C07 (c : runcase) (tr : list callrec) : bool := holds_C07 (rc_script c) tr.
@@ -522,3 +599,7 @@ Definition mon_C08 (c : runcase) (tr : list callrec) : bool := holds_C08 (imm_of
 Definition mon_C14 (c : runcase) (tr : list callrec) : bool := holds_C14 (rc_script c) tr.
 Definition mon_C17 (c : runcase) (tr : list callrec) : bool := holds_C17 (rc_script c) tr.
 Definition mon_C20 (c : runcase) (tr : list callrec) : bool := holds_C20 (rc_script c) tr.
+Definition mon_C04q (_ : runcase) (tr : list callrec) : bool := holds_C04q tr.
+Definition mon_C04n (_ : runcase) (tr : list callrec) : bool := holds_C04n tr.
+(* both monitors, for the harness *)
+Definition mon_C04ctx (c : runcase) (tr : list callrec) : bool := holds_C04q tr && holds_C04n tr.
